@@ -1,7 +1,10 @@
 // SPDX-FileCopyrightText: 2024 Joshua Goins <josh@redstrate.com>
 // SPDX-License-Identifier: GPL-3.0-or-later
 
+#[cfg(not(feature = "verif_sim"))]
 use std::fs;
+#[cfg(feature = "verif_sim")]
+use crate::vfs as fs;
 
 fn from_u16(from: &mut [u16]) -> &[u8] {
     #[cfg(target_endian = "little")]
